@@ -50,6 +50,7 @@
 //! | `sete W @k nil` / `sete W @k one @a` / `sete W @k val <int>` | insert `E::..` | `ok` / `err` / `skip` |
 //! | `sete W @k -` | remove | `ok` / `skip` |
 //! | `mark W @k` | `alloc.mark(e, &mut markers)` (allocator resource + `WriteStorage<M>`) | `m <id> new` / `m <id> old` / `none` / `skip` |
+//! | `mark_lazy W @k` | `LazyBuilder { entity, lazy }.marked::<M>()` (queued; applied inside the next `maintain W`, after its entity merge) | `ok` / `skip` |
 //! | `del_now W @k` | `world.delete_entity(e)` | `ok` / `err` / `skip` |
 //! | `del_batch W @k ...` | `world.delete_entities(&[..])` (zero or more slots) | `ok` / `err <pos>` / `skip` |
 //! | `del_atomic W @k` | `world.entities().delete(e)` | `ok` / `err` / `skip` |
@@ -213,7 +214,11 @@ trait MK: Marker + Send + Sync + 'static {
     fn idx_hint(world: &World, names: &Vec<String>) -> u64;
     /// `cfg uuidapp`: the application chooses the ids itself, counting from 0 (so the first one is the nil uuid), inserts
     /// `UuidMarker::new(id)` itself and registers it with `allocate(e, Some(id))`. `None` for marker kinds without that mode.
-    fn app_marker(_alloc: &mut Self::Allocator, _e: Entity, _n: u64) -> Option<(Self, String)> { None }
+    fn app_marker(_alloc: &mut Self::Allocator, _e: Entity, _n: u64, _register: bool) -> Option<(Self, String)> { None }
+    /// `cfg uuidreg`: the allocator object of world A is handed from one case of the process to the next (moved, not
+    /// cloned). Its maintenance rebuilds it from the world it is in, so nothing of the earlier world may show (C20).
+    fn stash(_world: &mut World) {}
+    fn unstash(_world: &mut World) {}
 }
 
 /// Parses `SimpleMarkerAllocator { index: 2, mapping: {1: Entity(1, Generation(1)), ..}, _phantom_data: .. }`.
@@ -274,6 +279,8 @@ impl MK for SM {
     }
 }
 
+thread_local! { static CARRIED_U: std::cell::RefCell<Option<UuidMarkerAllocator>> = std::cell::RefCell::new(None); }
+
 impl MK for UuidMarker {
     const UUID: bool = true;
     fn setup(world: &mut World) {
@@ -297,12 +304,18 @@ impl MK for UuidMarker {
     fn idx_hint(_: &World, names: &Vec<String>) -> u64 {
         names.len() as u64
     }
-    fn app_marker(alloc: &mut UuidMarkerAllocator, e: Entity, n: u64) -> Option<(Self, String)> {
+    fn app_marker(alloc: &mut UuidMarkerAllocator, e: Entity, n: u64, register: bool) -> Option<(Self, String)> {
         use specs::saveload::MarkerAllocator as _;
         let id = uuid::Uuid::from_u128(n as u128);
         // the application's own marker goes into the storage; `allocate(e, Some(id))` only tells the allocator about it
-        let _ = alloc.allocate(e, Some(id));
+        if register { let _ = alloc.allocate(e, Some(id)); }
         Some((UuidMarker::new(id), format!("{}", id)))
+    }
+    fn stash(world: &mut World) {
+        if let Some(a) = world.remove::<UuidMarkerAllocator>() { CARRIED_U.with(|c| *c.borrow_mut() = Some(a)); }
+    }
+    fn unstash(world: &mut World) {
+        if let Some(a) = CARRIED_U.with(|c| c.borrow_mut().take()) { world.insert(a); }
     }
 }
 
@@ -433,17 +446,23 @@ enum EV {
 
 #[derive(Clone, Debug, PartialEq)]
 enum Op {
-    Cfg { uuid: bool, ron: bool, app: bool },
+    /// app: 0 = ids from the allocator, 1 = `uuidapp`, 2 = `uuidreg`
+    Cfg { uuid: bool, ron: bool, app: u8 },
     Create(usize, bool),
     SetP(usize, usize, Option<i32>),
     SetR(usize, usize, Option<(usize, usize)>),
     SetE(usize, usize, Option<EV>),
     Mark(usize, usize),
+    /// `LazyBuilder { entity, lazy }.marked::<M>()`: the marking is queued and happens inside the next `maintain`
+    MarkLazy(usize, usize),
     DelNow(usize, usize),
     DelBatch(usize, Vec<usize>),
     DelAtomic(usize, usize),
     Maintain(usize),
     AllocMaintain(usize),
+    /// `world.insert(<fresh allocator>)`: the allocator resource is replaced (a re-initialisation routine). Outside the
+    /// histories of C14/C15 (a fresh allocator hands out ids from 0 again); generated only in `det` mode, for C20.
+    AllocReset(usize),
     Serialize(usize, bool),
     Deserialize(usize, usize),
     Load(usize, Vec<Rec>),
@@ -461,7 +480,7 @@ fn wn(w: usize) -> &'static str {
 fn show_op(op: &Op) -> String {
     match op {
         Op::UnitRoundtrip => "unit_roundtrip".to_string(),
-        Op::Cfg { uuid, ron, app } => format!("cfg {} {}", if *uuid { if *app { "uuidapp" } else { "uuid" } } else { "simple" }, if *ron { "ron" } else { "json" }),
+        Op::Cfg { uuid, ron, app } => format!("cfg {} {}", if *uuid { ["uuid", "uuidapp", "uuidreg"][*app as usize] } else { "simple" }, if *ron { "ron" } else { "json" }),
         Op::Create(w, atomic) => format!("create {} {}", wn(*w), if *atomic { "atomic" } else { "now" }),
         Op::SetP(w, k, Some(v)) => format!("setp {} @{} {}", wn(*w), k, v),
         Op::SetP(w, k, None) => format!("setp {} @{} -", wn(*w), k),
@@ -472,6 +491,7 @@ fn show_op(op: &Op) -> String {
         Op::SetE(w, k, Some(EV::Val(v))) => format!("sete {} @{} val {}", wn(*w), k, v),
         Op::SetE(w, k, None) => format!("sete {} @{} -", wn(*w), k),
         Op::Mark(w, k) => format!("mark {} @{}", wn(*w), k),
+        Op::MarkLazy(w, k) => format!("mark_lazy {} @{}", wn(*w), k),
         Op::DelNow(w, k) => format!("del_now {} @{}", wn(*w), k),
         Op::DelBatch(w, ks) => {
             let mut s = format!("del_batch {}", wn(*w));
@@ -481,6 +501,7 @@ fn show_op(op: &Op) -> String {
         Op::DelAtomic(w, k) => format!("del_atomic {} @{}", wn(*w), k),
         Op::Maintain(w) => format!("maintain {}", wn(*w)),
         Op::AllocMaintain(w) => format!("alloc_maintain {}", wn(*w)),
+        Op::AllocReset(w) => format!("alloc_reset {}", wn(*w)),
         Op::Serialize(w, false) => format!("serialize {}", wn(*w)),
         Op::Serialize(w, true) => format!("serialize_rec {}", wn(*w)),
         Op::Deserialize(w, k) => format!("deserialize {} #{}", wn(*w), k),
@@ -511,8 +532,8 @@ fn parse_op(line: &str) -> Option<Op> {
     Some(match ts.as_slice() {
         ["unit_roundtrip"] => Op::UnitRoundtrip,
         ["cfg", m, f] => Op::Cfg {
-            uuid: match *m { "simple" => false, "uuid" | "uuidapp" => true, _ => return None },
-            app: *m == "uuidapp",
+            uuid: match *m { "simple" => false, "uuid" | "uuidapp" | "uuidreg" => true, _ => return None },
+            app: match *m { "uuidapp" => 1, "uuidreg" => 2, _ => 0 },
             ron: match *f { "json" => false, "ron" => true, _ => return None },
         },
         ["create", w, "now"] => Op::Create(pw(w)?, false),
@@ -526,11 +547,13 @@ fn parse_op(line: &str) -> Option<Op> {
         ["sete", w, k, "one", a] => Op::SetE(pw(w)?, slot(k)?, Some(EV::One(slot(a)?))),
         ["sete", w, k, "val", v] => Op::SetE(pw(w)?, slot(k)?, Some(EV::Val(v.parse().ok()?))),
         ["mark", w, k] => Op::Mark(pw(w)?, slot(k)?),
+        ["mark_lazy", w, k] => Op::MarkLazy(pw(w)?, slot(k)?),
         ["del_now", w, k] => Op::DelNow(pw(w)?, slot(k)?),
         ["del_batch", w, ks @ ..] => Op::DelBatch(pw(w)?, ks.iter().map(|k| slot(k)).collect::<Option<_>>()?),
         ["del_atomic", w, k] => Op::DelAtomic(pw(w)?, slot(k)?),
         ["maintain", w] => Op::Maintain(pw(w)?),
         ["alloc_maintain", w] => Op::AllocMaintain(pw(w)?),
+        ["alloc_reset", w] => Op::AllocReset(pw(w)?),
         ["serialize", w] => Op::Serialize(pw(w)?, false),
         ["serialize_rec", w] => Op::Serialize(pw(w)?, true),
         ["deserialize", w, k] => Op::Deserialize(pw(w)?, k.strip_prefix('#')?.parse().ok()?),
@@ -673,7 +696,9 @@ struct Exec<M: MK> {
     names: Vec<String>,
     texts: Vec<String>,
     /// `cfg uuidapp`: world A's markers get application-chosen ids 0, 1, 2, .. (see `MK::app_marker`)
-    app_ids: bool,
+    app_ids: u8,
+    /// entities with a queued `mark_lazy`, per world, in queue order
+    lazy_marked: [Vec<Entity>; 2],
     _m: PhantomData<M>,
 }
 
@@ -692,6 +717,12 @@ fn res_ins<T>(r: Result<Option<T>, specs::error::Error>) -> String {
     match r { Ok(_) => "ok".into(), Err(_) => "err".into() }
 }
 
+impl<M: MK> Drop for Exec<M> {
+    fn drop(&mut self) {
+        if self.app_ids == 2 { M::stash(&mut self.worlds[0]); }
+    }
+}
+
 impl<M: MK> Exec<M> {
     fn new(ron: bool) -> Self {
         Exec {
@@ -701,7 +732,8 @@ impl<M: MK> Exec<M> {
             slots: Vec::new(),
             names: Vec::new(),
             texts: Vec::new(),
-            app_ids: false,
+            app_ids: 0,
+            lazy_marked: [Vec::new(), Vec::new()],
             _m: PhantomData,
         }
     }
@@ -773,11 +805,16 @@ impl<M: MK> Exec<M> {
                 let world = &self.worlds[*w];
                 let mut alloc = world.write_resource::<M::Allocator>();
                 let mut st = world.write_storage::<M>();
-                if self.app_ids && !st.contains(e) && world.entities().is_alive(e) {
+                if self.app_ids != 0 && !st.contains(e) && world.entities().is_alive(e) {
                     let n = self.names.len() as u64;
-                    if let Some((m, name)) = M::app_marker(&mut alloc, e, n) {
+                    if let Some((m, name)) = M::app_marker(&mut alloc, e, n, self.app_ids == 1) {
                         self.names.push(name);
                         st.insert(e, m.clone()).unwrap();
+                        if self.app_ids == 2 {
+                            // `uuidreg`: the allocator learns about hand-made markers through its maintenance
+                            drop(st);
+                            alloc.maintain(&world.entities(), &world.read_storage::<M>());
+                        }
                         return format!("m {} new", m.mid(&mut self.names));
                     }
                 }
@@ -785,6 +822,16 @@ impl<M: MK> Exec<M> {
                     Some((m, new)) => { let id = m.mid(&mut self.names); format!("m {} {}", id, if new { "new" } else { "old" }) }
                     None => "none".into(),
                 }
+            }
+            Op::MarkLazy(w, k) => {
+                use specs::saveload::MarkedBuilder as _;
+                if M::UUID && *w == 1 { return "skip".into(); }
+                let e = match self.resolve(*w, *k) { Some(e) => e, None => return "skip".into() };
+                let world = &self.worlds[*w];
+                let lazy = world.read_resource::<LazyUpdate>();
+                let _ = specs::world::LazyBuilder { entity: e, lazy: &*lazy }.marked::<M>().build();
+                self.lazy_marked[*w].push(e);
+                "ok".into()
             }
             Op::DelNow(w, k) => match self.resolve(*w, *k) {
                 None => "skip".into(),
@@ -799,13 +846,29 @@ impl<M: MK> Exec<M> {
                 None => "skip".into(),
                 Some(e) => match self.worlds[*w].entities().delete(e) { Ok(()) => "ok".into(), Err(_) => "err".into() },
             },
-            Op::Maintain(w) => { self.worlds[*w].maintain(); "ok".into() }
+            Op::Maintain(w) => {
+                self.worlds[*w].maintain();
+                // uuid names are handed out in order of first appearance: look at the lazily made markers in queue order
+                let queued: Vec<Entity> = self.lazy_marked[*w].drain(..).collect();
+                let st = self.worlds[*w].read_storage::<M>();
+                for e in queued {
+                    if let Some(m) = st.get(e) { let _ = m.mid(&mut self.names); }
+                }
+                "ok".into()
+            }
             Op::AllocMaintain(w) => {
                 let world = &self.worlds[*w];
                 let ents = world.entities();
                 let markers = world.read_storage::<M>();
                 let mut alloc = world.write_resource::<M::Allocator>();
                 alloc.maintain(&ents, &markers);
+                "ok".into()
+            }
+            Op::AllocReset(w) => {
+                if M::UUID { return "skip".into(); }
+                let keep = self.worlds[*w].read_storage::<M>().count();   // (markers stay in the storage)
+                M::setup(&mut self.worlds[*w]);
+                if self.worlds[*w].read_storage::<M>().count() != keep { harness_bug("alloc_reset changed the marker storage".into()); }
                 "ok".into()
             }
             Op::Serialize(w, rec) => {
@@ -889,8 +952,13 @@ impl<M: MK> Runner for Exec<M> {
     }
 }
 
-fn make_runner(uuid: bool, ron: bool, app: bool) -> Box<dyn Runner> {
-    if uuid { let mut e = Exec::<UuidMarker>::new(ron); e.app_ids = app; Box::new(e) } else { Box::new(Exec::<SM>::new(ron)) }
+fn make_runner(uuid: bool, ron: bool, app: u8) -> Box<dyn Runner> {
+    if uuid {
+        let mut e = Exec::<UuidMarker>::new(ron);
+        e.app_ids = app;
+        if app == 2 { UuidMarker::unstash(&mut e.worlds[0]); }
+        Box::new(e)
+    } else { Box::new(Exec::<SM>::new(ron)) }
 }
 
 /// Unit-struct component (serialises as serde's unit struct).
@@ -959,7 +1027,7 @@ struct Harness {
 
 impl Harness {
     fn new(show_text: bool) -> Self {
-        Harness { runner: make_runner(false, false, false), show_text, ron: false }
+        Harness { runner: make_runner(false, false, 0), show_text, ron: false }
     }
     /// executes one op, appends its transcript line, returns the result tokens
     fn step(&mut self, op: &Op, out: &mut String) -> String {
@@ -1013,7 +1081,7 @@ fn shuffle<T>(rng: &mut Rng, v: &mut Vec<T>) {
 /// Round-trip case: a small world A with reference structure, then the fixed probe tail.
 fn gen_rt(rng: &mut Rng) -> Vec<Op> {
     let uuid = rng.chance(1, 3);
-    let mut ops = vec![Op::Cfg { uuid, ron: rng.chance(1, 2), app: uuid && rng.chance(1, 2) }];
+    let mut ops = vec![Op::Cfg { uuid, ron: rng.chance(1, 2), app: (uuid && rng.chance(1, 2)) as u8 }];
     let mut nlog = 0usize;
     let mut live: Vec<usize> = Vec::new();
     let mut dead: Vec<usize> = Vec::new();
@@ -1054,7 +1122,10 @@ fn gen_rt(rng: &mut Rng) -> Vec<Op> {
         }
     };
     if rng.chance(1, 2) { shuffle(rng, &mut marked); }
-    let mark_ops: Vec<Op> = marked.iter().map(|k| Op::Mark(0, *k)).collect();
+    // a fifth of the cases mark some of the entities lazily (queued, applied by a `maintain` behind the mark ops)
+    let lazy_marks = rng.chance(1, 5);
+    let mut mark_ops: Vec<Op> = marked.iter().map(|k| if lazy_marks && rng.chance(1, 2) { Op::MarkLazy(0, *k) } else { Op::Mark(0, *k) }).collect();
+    if lazy_marks { mark_ops.push(Op::Maintain(0)); }
     let marks_first = rng.chance(1, 2);
     if marks_first { ops.extend(mark_ops.iter().cloned()); }
     // references: clean cases only point at marked entities
@@ -1148,9 +1219,11 @@ fn gen_load_recs(rng: &mut Rng, idx: u64) -> Vec<Rec> {
 }
 
 /// History case: random ops on both worlds, generated against the live harness state.
-fn gen_hist(rng: &mut Rng, maxlen: usize, h: &mut Harness, out: &mut String) {
+fn gen_hist(rng: &mut Rng, maxlen: usize, h: &mut Harness, out: &mut String, det: bool) {
     let uuid = rng.chance(3, 20);
-    h.step(&Op::Cfg { uuid, ron: rng.chance(1, 2), app: uuid && rng.chance(1, 2) }, out);
+    let uuid = uuid || (det && rng.chance(1, 4));
+    let app = if !uuid { 0 } else if det && rng.chance(1, 2) { 2 } else { rng.chance(1, 2) as u8 };
+    h.step(&Op::Cfg { uuid, ron: rng.chance(1, 2), app }, out);
     let len = rng.range(3, maxlen.max(3) as u64) as usize;
     let w_maint = *rng.pick(&[3u32, 6, 10]);
     let w_del = *rng.pick(&[2u32, 4, 7]);
@@ -1168,7 +1241,7 @@ fn gen_hist(rng: &mut Rng, maxlen: usize, h: &mut Harness, out: &mut String) {
             let ws = [
                 8, 5, 7, 7, 7, 3, 10,           // create now, create atomic, setp, setr, sete, remove comp, mark
                 w_del + 1, w_del, 2,            // del_now, del_atomic, del_batch
-                w_maint, 1,                     // maintain, alloc_maintain
+                w_maint, if det { 5 } else { 1 }, // maintain, alloc_maintain (det mode: half of them behind an alloc_reset)
                 6, 4, w_de, w_load, 2,          // serialize, serialize_rec, deserialize, load, roundtrip
             ];
             // warm-up: populate the worlds before the save/load traffic starts
@@ -1184,7 +1257,10 @@ fn gen_hist(rng: &mut Rng, maxlen: usize, h: &mut Harness, out: &mut String) {
                 3 => Op::SetR(w, k, Some((pick_ent(rng, h, w), pick_ent(rng, h, w)))),
                 4 => Op::SetE(w, k, Some(match rng.below(5) { 0 => EV::Nil, 1 => EV::Val(small(rng)), 2 => EV::One(k), _ => EV::One(pick_ent(rng, h, w)) })),
                 5 => match rng.below(3) { 0 => Op::SetP(w, k, None), 1 => Op::SetR(w, k, None), _ => Op::SetE(w, k, None) },
-                6 => { if uuid && !rng.chance(1, 12) { w = 0; } Op::Mark(w, pick_ent(rng, h, w)) }
+                6 => {
+                    if uuid && !rng.chance(1, 12) { w = 0; }
+                    if rng.chance(1, 4) { Op::MarkLazy(w, pick_ent(rng, h, w)) } else { Op::Mark(w, pick_ent(rng, h, w)) }
+                }
                 7 => Op::DelNow(w, k),
                 8 => Op::DelAtomic(w, k),
                 9 => {
@@ -1194,6 +1270,7 @@ fn gen_hist(rng: &mut Rng, maxlen: usize, h: &mut Harness, out: &mut String) {
                     Op::DelBatch(w, ks)
                 }
                 10 => Op::Maintain(w),
+                11 if det && rng.chance(1, 2) => { pending.push_back(Op::AllocMaintain(w)); pending.push_back(Op::Mark(w, k)); Op::AllocReset(w) }
                 11 => Op::AllocMaintain(w),
                 12 => Op::Serialize(w, false),
                 13 => { if uuid && !rng.chance(1, 12) { w = 0; } Op::Serialize(w, true) }
@@ -1216,8 +1293,8 @@ fn gen_hist(rng: &mut Rng, maxlen: usize, h: &mut Harness, out: &mut String) {
         let res = h.step(&op, out);
         count += 1;
         let w = match &op {
-            Op::Create(w, _) | Op::SetP(w, ..) | Op::SetR(w, ..) | Op::SetE(w, ..) | Op::Mark(w, _) | Op::DelNow(w, _)
-            | Op::DelBatch(w, _) | Op::DelAtomic(w, _) | Op::Maintain(w) | Op::AllocMaintain(w) | Op::Serialize(w, _)
+            Op::Create(w, _) | Op::SetP(w, ..) | Op::SetR(w, ..) | Op::SetE(w, ..) | Op::Mark(w, _) | Op::MarkLazy(w, _) | Op::DelNow(w, _)
+            | Op::DelBatch(w, _) | Op::DelAtomic(w, _) | Op::Maintain(w) | Op::AllocMaintain(w) | Op::AllocReset(w) | Op::Serialize(w, _)
             | Op::Deserialize(w, _) | Op::Load(w, _) | Op::Roundtrip(w, _) | Op::Dump(w) => *w,
             Op::Cfg { .. } | Op::UnitRoundtrip => 0,
         };
@@ -1300,7 +1377,7 @@ fn main() {
             let cases: usize = args[3].parse().unwrap();
             let maxlen: usize = args[4].parse().unwrap();
             let mode = args.get(5).map(|s| s.as_str()).unwrap_or("mix");
-            if !matches!(mode, "rt" | "hist" | "mix") {
+            if !matches!(mode, "rt" | "hist" | "mix" | "det") {
                 eprintln!("h_saveload: unknown kind {}", mode);
                 std::process::exit(2);
             }
@@ -1310,20 +1387,20 @@ fn main() {
             if std::env::var("VH_REVERSE").map(|v| v == "1").unwrap_or(false) { order.reverse(); }
             for (c, sub) in order {
                 let mut rng = Rng::new(sub);
-                let rt = match mode { "rt" => true, "hist" => false, _ => rng.chance(2, 5) };
+                let rt = match mode { "rt" => true, "hist" | "det" => false, _ => rng.chance(2, 5) };
                 writeln!(out, "case g{}-{}", c, sub).unwrap();
                 wd_case(&format!("g{}-{}", c, sub));
                 let mut h = Harness::new(show_text);
                 if rt {
                     for op in gen_rt(&mut rng) { h.step(&op, &mut out); }
                 } else {
-                    gen_hist(&mut rng, maxlen, &mut h, &mut out);
+                    gen_hist(&mut rng, maxlen, &mut h, &mut out, mode == "det");
                 }
                 if out.len() > 1 << 16 { flush(&mut out); }
             }
         }
         _ => {
-            eprintln!("usage: h_saveload run <file> | gen <seed> <cases> <maxlen> [rt|hist|mix]");
+            eprintln!("usage: h_saveload run <file> | gen <seed> <cases> <maxlen> [rt|hist|mix|det]");
             std::process::exit(2);
         }
     }
